@@ -731,6 +731,14 @@ func (conn *diskConn) initWriter(width, height uint32, track *diskTrack, ts uint
 			return nil
 		} else {
 			conn.close()
+			if track != nil {
+				// close has cleared the origins; the new
+				// file starts with this keyframe
+				track.setOrigin(
+					ts, time.Now(),
+					track.remote.Codec().ClockRate,
+				)
+			}
 		}
 	}
 
